@@ -146,9 +146,10 @@ def c07(ctx, t0):
     if want(ctx, 'tokens'):
         res.append(ovl_stage(ctx, 'tokens', 'TestVerifC07', T(ctx, 600, 3000)))
     floors = {'presented': (counters(res, 'presented'), 5000), 'nonces_checked': (counters(res, 'nonces_checked'), 100000),
-              'chosen_plaintexts': (counters(res, 'chosen_plaintexts'), 20), 'accepted': (counters(res, 'accepted'), 20)}
+              'chosen_plaintexts': (counters(res, 'chosen_plaintexts'), 20), 'edge_ages': (counters(res, 'edge_ages'), 6), 'accepted': (counters(res, 'accepted'), 20)}
     return finish(ctx, 'exploration', res, COMMON_ASSUME + [
         'unforgeability is tested against the enumerated mutation classes; this is not a cryptographic argument about AES-GCM',
+        'ages within a second of the lifetime edge are judged only when a wall-clock reading before and one after the check agree on the verdict (the system clock is assumed not to be stepped in between)',
         'time-window cases sit >= 3 s from the boundary and are re-run when the clock bracket around them exceeds 1 s',
         'the base64 text layer is not part of the claim: acceptance is judged on the decoded (nonce, ciphertext) under a lenient decoder'], floors, t0)
 
@@ -209,7 +210,9 @@ def c09(ctx, t0):
     res = []
     if want(ctx, 'durability'):
         res.append(sc_checks.c09_stage(ctx))
-    floors = {'scenarios': (counters(res, 'scenarios'), 8), 'post_ack_states': (counters(res, 'post_ack_states'), 8), 'ordering_obligations': (counters(res, 'ordering_obligations'), 8)}
+    if want(ctx, 'concurrent-durability'):
+        res.append(sc_checks.c09_concurrent_stage(ctx))
+    floors = {'concurrent_entry_obligations': (counters(res, 'concurrent_entry_obligations'), 10), 'concurrent_ops_overlapping': (counters(res, 'concurrent_ops_overlapping'), 10), 'scenarios': (counters(res, 'scenarios'), 8), 'post_ack_states': (counters(res, 'post_ack_states'), 8), 'ordering_obligations': (counters(res, 'ordering_obligations'), 8)}
     return finish(ctx, 'fault_enumeration', res, COMMON_ASSUME + [
         'persistence model as stated in the property (fsync(file) for data, fsync(dir) for entries)',
         'decided on the syscalls one traced execution of each operation made; other code paths of the same operation are covered by the scenario list only'], floors, t0)
